@@ -63,6 +63,7 @@ class Ctx:
         self.agen_started = 0
         self.uses = 0
         self.poke_absorbed = 0
+        self.token_owners: List[Any] = []  # owner of every token emitted, in order
 
     def ev(self, *event: Any) -> None:
         self.log.append(event)
@@ -88,6 +89,7 @@ class Suspend:
             tok = Token(self.owner, ctx.seq, self.block)
             ctx.emitted = tok
             ctx.suspensions += 1
+            ctx.token_owners.append(self.owner)
             while True:
                 try:
                     reply = yield tok
@@ -103,6 +105,11 @@ class Suspend:
                     ctx.emitted = tok
                     ctx.suspensions += 1
                     continue
+                except GeneratorExit:
+                    # close()/throw(GeneratorExit) reaches delegated awaitables via their own close():
+                    # the interpreter raises a fresh GeneratorExit here, identity cannot be checked
+                    ctx.expect = None
+                    raise
                 except BaseException as exc:
                     exp = ctx.expect
                     if exp is None or exp[0] is not tok or exp[1] is not exc:
@@ -136,6 +143,11 @@ def _finalizer(agen: Any) -> None:
     CTX.agen_finalized.append(name)
     try:
         drive(agen.aclose())
+    except RuntimeError as exc:
+        # CPython leaves a generator marked "running" when GeneratorExit was thrown through one of its
+        # pending asend() awaitables; nothing can be closed then and it says nothing about the library
+        if "already running" not in str(exc):
+            CTX.foreign.append(f"finalizer of {name} raised {type(exc).__name__}: {exc}")
     except BaseException as exc:  # noqa: BLE001 - diagnostics only
         CTX.foreign.append(f"finalizer of {name} raised {type(exc).__name__}: {exc}")
 
